@@ -40,3 +40,60 @@ Theorem leak_is_reported : forall m free, In false free ->
   p_step (mkStep m RReturned free) = ("lock-leak:" ++ m)%string.
 Proof. exact leak_detected. Qed.
 Print Assumptions leak_is_reported.
+
+(* ---- LockPile (model of pkg/sync/lock_pile.go, Locks/Pile.v) --------------- *)
+From VF Require Import Locks.Pile.
+
+(* For all reachable states of any number of threads using LockPiles over
+   shared try-lockable mutexes, under every interleaving: *)
+
+(* between calls a thread holds exactly the mutexes of its pile, and when
+   Lock() is about to return it holds exactly the goal of that call (the
+   previous pile plus the requested locks, see [lock_goal]) ... *)
+Theorem pile_holds_exactly : forall s, reachable s -> forall t,
+  (forall pile, ts s t = Idle pile -> forall m, owner s m = Some t <-> In m (mutexes pile)) /\
+  (forall g acq, ts s t = Loop g acq [] -> forall m, owner s m = Some t <-> In m g).
+Proof. exact pile_holds_exactly_thm. Qed.
+Print Assumptions pile_holds_exactly.
+
+Theorem lock_call_goal : forall pile news a p,
+  start pile (CLock news) = Some (a, p) ->
+  exists acq rest, p = Loop (mutexes pile ++ news) acq rest /\ a = ATau.
+Proof. exact lock_goal. Qed.
+Print Assumptions lock_call_goal.
+
+Theorem lock_returns_holding_its_goal : forall s, reachable s ->
+  forall t g acq s', ts s t = Loop g acq [] -> step s t s' ->
+  ts s' t = Idle acq /\ forall m, owner s' m = Some t <-> In m g.
+Proof. exact lock_returns_holding_goal. Qed.
+Print Assumptions lock_returns_holding_its_goal.
+
+(* ... a thread sits in the blocking Lock() only while it holds none of the
+   mutexes of its pile ... *)
+Theorem pile_blocks_bare : forall s, reachable s ->
+  forall t g e others, ts s t = Block g e others -> forall m, owner s m <> Some t.
+Proof. exact pile_blocks_bare_thm. Qed.
+Print Assumptions pile_blocks_bare.
+
+(* ... hence no non-empty set of threads can be waiting on mutexes owned
+   within the set: there is no deadlock among LockPile users ... *)
+Theorem no_deadlock : forall s, reachable s ->
+  forall S : tid -> Prop, (exists t, S t) ->
+  ~ (forall t, S t -> exists m t', waiting s t m /\ owner s m = Some t' /\ S t').
+Proof. exact no_deadlock_thm. Qed.
+Print Assumptions no_deadlock.
+
+(* ... and the owner of a mutex somebody waits for always has a step to
+   take (enabledness; that it is eventually scheduled, and that the try-lock
+   back-off does not livelock, is NOT proved: partial). *)
+Theorem contended_owner_can_run : forall s, reachable s ->
+  forall t m, waiting s t m -> exists t' s', owner s m = Some t' /\ step s t' s'.
+Proof. exact owner_of_contended_mutex_can_run. Qed.
+Print Assumptions contended_owner_can_run.
+
+(* Non-vacuity: the classic two-lock deadlock shape is reachable up to the
+   point where LockPile backs off. *)
+Theorem backoff_state_reachable :
+  exists s, reachable s /\ waiting s 0 2 /\ owner s 1 = None /\ owner s 2 = Some 1.
+Proof. exact demo_reaches_block. Qed.
+Print Assumptions backoff_state_reachable.
